@@ -135,3 +135,19 @@ def exhaustive_steps(kind, trees, ops, limit=None):
                 b.close()
             hid += 1
     return steps
+
+
+def known_class(s):
+    """name of the open-known-finding class a step falls into, or None (see known_findings.json)"""
+    op = s.op
+    if op[0] == "movedir":
+        a, d = _comps(op[1]), _comps(op[2])
+        if a is not None and d is not None and len(d) < len(a) and a[: len(d)] == d:
+            # destination is a proper ancestor of the source ...
+            top = a[len(d)]
+            src = "/".join(a)
+            for e in s.pre:
+                # ... and the source directory holds an entry named like its own top component
+                if e[1] == src + "/" + top:
+                    return "movedir-dst-ancestor-of-src-name-clash"
+    return None
